@@ -23,7 +23,7 @@ RULE = ('trees over leaves x(1) y(2) z(3), 23 constants (int 2/-1/0, 2 floats, d
         'variable v with coefficient kind k1 (scalar/row/matrix, dense/sparse, + indexing forms) merged with '
         'every coefficient kind k2 under + - += -= with and without another variable fixing the length; '
         'd4 (thorough) = root ops over the depth-3 trees of the quick palette under a per-case node budget.  '
-        'Each accepted tree: len, value at every point of {-1,0,2}^n (n<=6; n+3 affinely independent points '
+        'Each accepted tree: len, value at every point of {-1,0,2}^n (n<=6; n+4 basis points '
         'when reference and implementation agree the function is affine), variables(), claimed curvature '
         '(f<=0 / f>=0 accepted) must pass midpoint convexity/concavity/affinity on the implementation\'s own '
         'values, value None propagation, and the non-aliasing protocol (mutate result with += -= *= /= and '
@@ -41,16 +41,19 @@ ASSUME = ['where modeling.rst is silent or ambiguous nothing is demanded about a
           'exact comparison for integer/dyadic data; 1e-12 relative when a divisor is not a power of two',
           'sparse-constant minus function is evaluated only in a forked child (spmatrix_sub can kill the '
           'interpreter); if the child dies those trees are skipped in-process and reported once']
-BOUNDS = {'quick': 'depth<=2 over the full constant palette (all trees); depth 3 over the reduced palette '
-                   '(int 2/-1/0, float, dense 1x1, dense col2/col3, sparse col3, dense row2, sparse row3, dense 3x2, '
-                   'sparse 2x3, dense 2x2); in-place trailing op on every accepted depth-2 tree with every operand '
-                   'kind; addterm table complete; points {-1,0,2}^n for n<=3 scalar components, for n in 4..6 the grid points '
-                   'with at most two non-zero components; midpoint test on all pairs for <=9 points, else on pairs of '
-                   'the n+3 basis points and the axis lines through them',
-          'thorough': 'depth<=3 over the full palette (all trees); in-place trailing op additionally on depth-3 trees '
-                      'of the reduced palette with one operand per kind; depth 4 = 14 root ops over every accepted '
-                      'reduced-palette depth-3 tree, at most 1500 depth-4 trees per depth-2 family (budget reported in '
-                      'extra.depth4_budget / depth4_programs / depth4_truncated_families)'}
+BOUNDS = {'quick': 'depth<=2 over the full constant palette (all trees); depth 3: first non-leaf child = every accepted '
+                   'depth-2 tree over the reduced palette (int 2/-1/0, float, dense 1x1, dense col2/col3, sparse col3, '
+                   'dense row2, sparse row3, dense 3x2, sparse 2x3, dense 2x2), every root op, other operand = every leaf, '
+                   'every reduced-palette constant and the 27 representative depth-2 trees of quick_partners(); in-place '
+                   'trailing op on every accepted depth-2 tree with every operand kind; addterm table complete; points '
+                   '{-1,0,2}^n for n<=3 scalar components, for n in 4..6 the grid points with at most two non-zero '
+                   'components; midpoint test on all pairs for <=9 points, else on the pairs of the n+4 basis points and '
+                   'the axis lines through four of them',
+          'thorough': 'depth<=3 over the full palette (all trees, all accepted depth-2 trees as partners), points '
+                      '{-1,0,2}^n for n<=6, midpoint test on all pairs for <=27 points; depth 4 = 14 root ops and the '
+                      'in-place trailing ops (one operand per kind) over every accepted quick-tier depth-3 tree, at most '
+                      '4000 depth-4 roots per depth-2 family (budget and truncation reported in summary.depth4_*), '
+                      'evaluated on the quick-tier grids'}
 
 VARLEN = R.VARLEN
 NAMES = ('x', 'y', 'z')
@@ -1211,7 +1214,15 @@ def run(case):
                 k += 1
         c.extra['depth4_programs'] = k
         c.extra['depth4_truncated_families'] = trunc
-        c.extra['depth4_budget'] = budget
+        c.extra['depth4_families'] = 1
     else:
         raise AssertionError(fam)
     return c.result()
+
+
+def summary(agg):
+    ex = agg.get('extra', {})
+    return {'programs': ex.get('programs', 0), 'evaluations': agg.get('n'),
+            'depth4_node_budget_per_family': D4_BUDGET, 'depth4_families': ex.get('depth4_families', 0),
+            'depth4_programs': ex.get('depth4_programs', 0),
+            'depth4_families_truncated_by_budget': ex.get('depth4_truncated_families', 0)}
